@@ -36,7 +36,8 @@ META = {"engine": "D loopback", "technique": "trace invariant over virtual-time 
         "level_text": "generated request/stream schedules around the timeout over real loopback sockets, plain and TLS",
         "level_note": "persistence is read from the server's own Requestant.persisted; TLS handshake happens at one virtual instant"}
 
-HOST = "127.0.0.1"
+from vf import net
+HOST = net.host()       # a loopback address of this process alone (see vf/net.py)
 CERTS = REPO + "/ioflo/aio/test/tls/certs/"
 GAPS = (0, 1, 3, 7, 8, 9, 12)
 
